@@ -42,3 +42,24 @@ def classify(case, result):
         c = int(t[1][2:])
         kind = "dx9-cube" if c & 0x200 else ("dx9-vol" if c & 0x200000 else "dx9-tex")
     return f"{kind} {t[7]} len={min(len(t) - 8, 8)}"
+
+
+def equal(a, b):
+    """A cube-map read past the end with a wrong-size buffer falls under two clauses of C08 (no-more-surfaces past the
+    end; wrong-size buffers rejected without moving) whose precedence the statement leaves open. The model reports what
+    the code reports today. Tolerated per call: `NoMoreSurfaces` on one side where the other says
+    `UnexpectedSurfaceSize`, with the identical state after the call (which must be the `done` state)."""
+    if a == b:
+        return True
+    pa, pb = a.split(" | "), b.split(" | ")
+    if len(pa) != len(pb):
+        return False
+    for x, y in zip(pa, pb):
+        if x == y:
+            continue
+        tx, ty = x.split(" ", 1), y.split(" ", 1)
+        if len(tx) == 2 and len(ty) == 2 and tx[1] == ty[1] and tx[1].startswith("- done") \
+                and {tx[0], ty[0]} == {"NoMoreSurfaces", "UnexpectedSurfaceSize"}:
+            continue
+        return False
+    return True
